@@ -65,7 +65,7 @@ Qed.
 Lemma gstate_leave_here c e r : gstate (fst (leave_here c e r)) = gstate c.
 Proof.
   unfold leave_here. destruct (existsb (N.eqb (100000 + e_id e)) (k_seen (kc c))); [reflexivity|].
-  destruct (is_admin c && _); [reflexivity|]. cbn [fst]. destruct (is_admin c); reflexivity.
+  destruct (is_admin c && _); reflexivity.
 Qed.
 
 Lemma gstate_commit_here_unauth c e r : e_auth e = false \/ e_bad e = 8 -> gstate (fst (commit_here c e r)) = gstate c.
@@ -436,8 +436,7 @@ Proof.
     + destruct (e_kind e =? 2).
       * unfold leave_here. change (kc (restart c)) with (kc c). change (is_admin (restart c)) with (is_admin c).
         destruct (existsb (N.eqb (100000 + e_id e)) (k_seen (kc c))); [apply sim_same; reflexivity|].
-        destruct (is_admin c && _); [apply sim_same; reflexivity|].
-        destruct (is_admin c); apply sim_same; reflexivity.
+        destruct (is_admin c && _); apply sim_same; reflexivity.
       * unfold commit_here. change (kc (restart c)) with (kc c).
         destruct (negb (forallb _ (e_refs e))); [apply sim_same; reflexivity|].
         destruct (negb (e_auth e) || (e_bad e =? 8)); [apply sim_same; reflexivity|apply apply_commit_restart].
@@ -623,7 +622,7 @@ Proof.
       cbn [fst]. apply Held_core; [|exact H]. rewrite upd_last_states. exact (proj1 H).
     + destruct (e_kind e =? 2).
       * apply Held_Grown. unfold leave_here. destruct (existsb (N.eqb (100000 + e_id e)) (k_seen (kc c))); [exact H|].
-        destruct (is_admin c && _); [exact H|]. cbn [fst]. destruct (is_admin c); exact H.
+        destruct (is_admin c && _); exact H.
       * unfold commit_here. destruct (negb (forallb _ (e_refs e))); [apply Held_Grown; exact H|].
         destruct (negb (e_auth e) || (e_bad e =? 8)); [apply Held_Grown; exact H|apply Grown_apply_commit; exact H].
 Qed.
